@@ -99,7 +99,9 @@ def gen_case(rng, n_ops=None, invalid_rate=0.15, pf_level=True):
     master = funds
     pfs = {}      # pid -> dict(cash=approx, held={asset: qty}, pend=[(asset, qty)])
     quotes = {}
-    for a in ASSETS[:rng.randint(2, 4)]:
+    # symbols are arbitrary strings: some books use lower / mixed case, and symbols that differ in case only
+    pool = ASSETS if rng.random() < 0.7 else ['EQ:agg', 'Brk.b', 'EQ:AGG', 'spy']
+    for a in pool[:rng.randint(2, 4)]:
         bid, ask = gen_quote(rng)
         ops.append(['px', a, bid, ask])
         quotes[a] = (bid, ask)
